@@ -40,6 +40,7 @@ Definition same_set (a b : list string) : bool := subset a b && subset b a.
 
 Inductive obs :=
 | ODir (recursive : bool) (rel : list string) (impl : list string)
+| ODirPar (recursive : bool) (rel : list string) (impl : list string)     (* through lint_directory_parallel / --parallel *)
 | OFiles (ps : list (list string)) (impl : list string).
 
 Definition out (l : list (list string)) : list string := map pjoin l.
@@ -50,25 +51,30 @@ Definition model_out (q : cquirks) (abs : list string) (t : tree) (S : tsources)
                     | Some d => out (run_dir q r abs rel d (render_sources S))
                     | None => ["<no such directory>"]
                     end
+  | ODirPar r rel _ => match subtree 64 t rel with
+                       | Some d => out (run_dir_par q r abs rel d (render_sources S))
+                       | None => ["<no such directory>"]
+                       end
   | OFiles ps _ => out (run_files q abs (render_sources S) ps)
   end.
 
 Definition spec_out (t : tree) (S : tsources) (o : obs) : list string :=
   match o with
-  | ODir r rel _ => match subtree 64 t rel with
+  | ODir r rel _ | ODirPar r rel _ =>
+                    match subtree 64 t rel with
                     | Some d => out (spec_dir r rel d S)
                     | None => ["<no such directory>"]
                     end
   | OFiles ps _ => out (spec_files S ps)
   end.
 
-Definition impl_out (o : obs) : list string := match o with ODir _ _ i => i | OFiles _ i => i end.
+Definition impl_out (o : obs) : list string := match o with ODir _ _ i | ODirPar _ _ i => i | OFiles _ i => i end.
 
 (* the domain hypotheses of the theorems, checked on the generated input *)
 Definition in_domain (t : tree) (S : tsources) (o : obs) : bool :=
   tsources_ok S &&
   match o with
-  | ODir _ rel _ => rel_ok rel && match subtree 64 t rel with Some d => target_ok d | None => false end
+  | ODir _ rel _ | ODirPar _ rel _ => rel_ok rel && match subtree 64 t rel with Some d => target_ok d | None => false end
   | OFiles ps _ => forallb path_ok ps
   end.
 
